@@ -84,11 +84,11 @@ theorem placement_default (c : Cell) (offline : Bool) (o : Outcome) (h : run c o
 theorem sub_views_agree (sub : Str) :
     (Subject.views sub none).idToken = sub ∧ (Subject.views sub none).userinfo = sub ∧
     (Subject.views sub none).jwtAccess = sub ∧ (Subject.views sub none).introspection = sub :=
-  Idpy.Props.C18.sub_consistent sub
+  Idpy.Props.C18.sub_consistent sub none
 
 /-- non-vacuity: the number of cells, how many complete, a worked cell -/
 theorem product_size :
-    (allRT.length * allRM.length * allAM.length * allFmt.length * allFmt.length * allSig.length * allEnc.length * allUI.length * allReq.length * 2 = 73728) ∧
+    (allRT.length * allRM.length * allAM.length * allFmt.length * allFmt.length * allSig.length * allEnc.length * allUI.length * allReq.length * 2 = 129024) ∧
     ((allRT.flatMap fun rt => allRM.filter fun rm => (placement rt rm).isSome).length = 9) := by
   decide
 
